@@ -183,3 +183,68 @@ package unmarshal
 //@   flag checks=-assert,-index
 //@ func (*otlpLogDec).Decode [C03]
 //@   flag checks=-assert
+
+// ---------------------------------------------------------------- spans (C05 id sizes, C06 one span = one row + its tags)
+
+// Every span decoder reaches the row builder through this handler type. The
+// trace id / span id columns are FixedString(16) / FixedString(8): ch-go panics
+// on any other size, and it does so in the pusher goroutine, which has no
+// recover — one such span would end the process. Tags come as aligned key/value arrays.
+//@ func functype:onSpanHandler(traceId, spanId, timestampNs, durationNs, parentId, name, serviceName, payload, key, val)
+//@   requires id-sizes: len(traceId) == 16 && len(spanId) == 8
+//@   requires aligned-tags: len(key) == len(val)
+//@   modifies nothing
+
+// hex text -> leng/2 raw bytes (left-padded with zeros), or an error
+//@ func (*zipkinDecoderV2).decodeHexStr [C06]
+//@   requires leng >= 0 && leng % 2 == 0
+//@   modifies nothing
+//@   ensures result1 == nil ==> len(result0) == leng / 2
+//@   loop 1:
+//@     invariant 0 <= i
+//@     modifies elems(prefix)
+
+//@ func (*zipkinDecoderV2).stringOrInt64
+//@   modifies nothing
+//@ func (*zipkinDecoderV2).parseEndpoint [C06]
+//@   requires len(z.key) == len(z.val)
+//@   modifies z.key, z.val
+//@   ensures result1 == nil ==> len(z.key) == len(z.val)
+//@ func (*zipkinDecoderV2).parseEndpoint$1 [C06]
+//@   requires len(z.key) == len(z.val)
+//@   modifies z.key, z.val, serviceName
+//@   ensures result == nil ==> len(z.key) == len(z.val)
+//@ func (*zipkinDecoderV2).parseTags [C06]
+//@   requires len(z.key) == len(z.val)
+//@   modifies z.key, z.val
+//@   ensures result == nil ==> len(z.key) == len(z.val)
+//@ func (*zipkinDecoderV2).parseTags$1 [C06]
+//@   requires len(z.key) == len(z.val)
+//@   modifies z.key, z.val
+//@   ensures result == nil ==> len(z.key) == len(z.val)
+
+// One span object -> exactly one onSpan call with this span's own ids, times,
+// payload and tags: the decoder state must be fresh when a span starts.
+//@ spec fn spanStateOK(z *zipkinDecoderV2) bool = len(z.key) == len(z.val) && (isnil(z.traceId) || len(z.traceId) == 16) && (isnil(z.spanId) || len(z.spanId) == 8)
+//@ func (*zipkinDecoderV2).decodeSpan [C05,C06]
+//@   requires fresh-state: len(z.key) == 0 && len(z.val) == 0 && isnil(z.traceId) && isnil(z.spanId)
+//@   requires payload-is-this-span: len(z.payload) == len(rawSpan)
+//@   modifies fields(z)
+//@ func (*zipkinDecoderV2).decodeSpan$1 [C05,C06]
+//@   requires spanStateOK(z)
+//@   modifies fields(z)
+//@   ensures result == nil ==> spanStateOK(z)
+
+//@ func (*zipkinDecoderV2).Decode$1 [C06]
+//@   requires len(z.key) <= cap(z.key) && len(z.val) <= cap(z.val)
+//@ func (*zipkinNDDecoderV2).Decode [C06]
+
+//@ func (*OTLPDecoder).initAttributesMap
+//@   modifies mapof(*res)
+//@ func populateServiceNames
+//@   modifies span.Attributes
+//@ func (*OTLPDecoder).Decode [C05,C06]
+//@   flag checks=-assert,-index
+//@   loop 4:
+//@     invariant i >= 0 && rangeindex >= -1 && len(keys) == len(vals)
+//@     modifies elems(keys), elems(vals)
